@@ -59,7 +59,9 @@ def uses_of_local(body, l):
             rv = s["rv"]
             k = rv["k"]
             hit = False
-            if k in ("use", "cast", "unop", "repeat") and op_uses(rv.get("op") or rv.get("a")):
+            if k in ("use", "cast", "repeat") and op_uses(rv["op"]):
+                hit = True
+            elif k == "unop" and op_uses(rv["a"]):
                 hit = True
             elif k == "binop" and (op_uses(rv["a"]) or op_uses(rv["b"])):
                 hit = True
@@ -234,8 +236,10 @@ class CacheAccess:
 
 def rv_operands(rv):
     k = rv["k"]
-    if k in ("use", "cast", "unop", "repeat"):
-        return [rv.get("op") or rv.get("a")]
+    if k in ("use", "cast", "repeat"):
+        return [rv["op"]]
+    if k == "unop":
+        return [rv["a"]]
     if k == "binop":
         return [rv["a"], rv["b"]]
     if k == "aggregate":
